@@ -1,8 +1,10 @@
 mod cell;
 mod chain;
+mod c15;
 mod conc;
 mod d9;
 mod ebr;
+mod ebrstall;
 mod list;
 mod pure;
 mod queue;
@@ -121,6 +123,16 @@ fn main() {
             let n: usize = arg(&args, "--chain").and_then(|s| s.parse().ok()).unwrap_or(1000);
             let (adv, bad) = d9::run(n);
             println!("d9: chain={} epochs_advanced_during_first_subtree={} second_child_destructed_under_pinned_snapshot={}", n, adv, bad);
+        }
+        "ebr-stall" => {
+            let n: usize = arg(&args, "--cases").and_then(|s| s.parse().ok()).unwrap_or(if thorough { 6000 } else { 600 });
+            let (stalls, steps, fails) = ebrstall::run(&out, seed, thorough, n);
+            println!("ebr-stall: cases={} steps={} cases_with_stalled_traversal={} property_failures={}", n, steps, stalls, fails);
+        }
+        "c15" => {
+            let n: usize = arg(&args, "--cases").and_then(|s| s.parse().ok()).unwrap_or(if thorough { 400 } else { 60 });
+            let (deferred, props, fails) = c15::run(&out, seed, thorough, n);
+            println!("c15: cases={} deferred_functions={} property_checks={} property_failures={}", n, deferred, props, fails);
         }
         "chain" => {
             let (lines, props, fails) = chain::run(&out, seed, thorough);
